@@ -181,6 +181,11 @@ def nfa_srcs(task):
     elif task["kind"] == "big_nfa":
         for i in range(task["count"]):
             yield {"kind": "big_nfa", "seed": task["seed"] * 100000 + i}
+    elif task["kind"] == "wide_nfa":
+        # alphabets of 5-7 and 17 symbols: sizes at which a Python set and its copy iterate in different orders
+        for i in range(task["count"]):
+            yield {"kind": "rnd_nfa", "seed": task["seed"] * 100000 + i, "maxk": 3,
+                   "alphabets": ["abcde", "abcdef", "abcdefg", "abcdefghijklmnopq"]}
 
 
 def hashseeds(tier, seed):
